@@ -229,15 +229,25 @@ func SetLock(fname string, cfg *program.Config) (*os.File, error) {
 	lockDir := path.Join(cfg.BaseDir, "lock")
 	os.Mkdir(lockDir, 0755)
 	lockFile := path.Join(lockDir, path.Base(fname))
-	fh, err := os.OpenFile(lockFile, os.O_CREATE|os.O_RDONLY, 0644)
-	if err != nil {
-		return nil, err
+	for {
+		fh, err := os.OpenFile(lockFile, os.O_CREATE|os.O_RDONLY, 0644)
+		if err != nil {
+			return nil, err
+		}
+		err = syscall.Flock(int(fh.Fd()), syscall.LOCK_EX|syscall.LOCK_NB)
+		if err != nil {
+			return fh, fmt.Errorf("Approve in progress for %s", fname)
+		}
+		// Lock file may have been removed by job "delete-old-policies"
+		// after it was opened. Then we hold a lock on a file, which
+		// no other process will ever see. Try again in this case.
+		st1, err1 := fh.Stat()
+		st2, err2 := os.Stat(lockFile)
+		if err1 == nil && err2 == nil && os.SameFile(st1, st2) {
+			return fh, nil
+		}
+		fh.Close()
 	}
-	err = syscall.Flock(int(fh.Fd()), syscall.LOCK_EX|syscall.LOCK_NB)
-	if err != nil {
-		err = fmt.Errorf("Approve in progress for %s", fname)
-	}
-	return fh, err
 }
 
 func (s *state) getLogFH(ext string) (*os.File, error) {
